@@ -118,6 +118,7 @@ Section Restart.
   (** observational equivalence of component states (what the queries can tell apart) *)
   Variable ceq : comp -> S -> S -> Prop.
   Hypothesis ceq_refl : forall c s, ceq c s s.
+  Hypothesis ceq_trans : forall c s1 s2 s3, ceq c s1 s2 -> ceq c s2 s3 -> ceq c s1 s3.
   Hypothesis apply_cong : forall c s1 s2 m, ceq c s1 s2 -> ceq c (capply c s1 m) (capply c s2 m).
 
   (** what load_snapshot does to component [c] for one record *)
@@ -229,6 +230,76 @@ Section Restart.
     intros hist c. unfold Replay.start_up. destruct (length hist =? 0) eqn:E0.
     - apply Nat.eqb_eq in E0. destruct hist; [reflexivity | discriminate].
     - rewrite Nat.sub_0_r. simpl. now rewrite firstn_all.
+  Qed.
+
+  (** ** compaction concurrent with apply (SM/Replay.v, [restart_racy]) *)
+
+  (** the messages of component [c] in a history *)
+  Fixpoint msgs (c : comp) (hist : list entry) : list M :=
+    match hist with
+    | [] => []
+    | Some (c', m) :: h => if comp_eqb c c' then m :: msgs c h else msgs c h
+    | None :: h => msgs c h
+    end.
+
+  Lemma msgs_app c h1 h2 : msgs c (h1 ++ h2) = msgs c h1 ++ msgs c h2.
+  Proof.
+    induction h1 as [| [[c' m] |] h1 IH]; simpl; [reflexivity | | assumption].
+    destruct (comp_eqb c c'); simpl; now rewrite IH.
+  Qed.
+
+  Lemma run_proj hist : forall (st : node) c, run hist st c = fold_left (capply c) (msgs c hist) (st c).
+  Proof.
+    induction hist as [| [[c' m] |] hist IH]; intros st c; simpl; [reflexivity | | apply IH].
+    rewrite IH. unfold updc. destruct (comp_eqb c c') eqn:E; [| reflexivity].
+    apply comp_eqb_eq in E. now subst.
+  Qed.
+
+  Lemma fold_cong c h : forall s1 s2,
+    ceq c s1 s2 -> ceq c (fold_left (capply c) h s1) (fold_left (capply c) h s2).
+  Proof. induction h as [| m h IH]; intros s1 s2 H; simpl; [assumption | apply IH, apply_cong, H]. Qed.
+
+  (** re-applying a block of messages to a state that has just applied it changes nothing
+      observable (true of last-write-wins components, false of accumulating ones) *)
+  Definition replay_idempotent (c : comp) : Prop :=
+    forall s h, ceq c (fold_left (capply c) h (fold_left (capply c) h s)) (fold_left (capply c) h s).
+
+  (** if component [c] wrote its records [j c] entries after the header's last_index [k], the
+      restart (which replays from k + 1) is still exact on every replay-idempotent component *)
+  Theorem restart_racy_idempotent :
+    forall (hist : list entry) (k : nat) (j : comp -> nat) (c : comp),
+      replay_idempotent c ->
+      ceq c (restart_racy S M capply csnap cload cinit hist k j c) (run hist init c).
+  Proof.
+    intros hist k j c ID. unfold restart_racy, Replay.start_up.
+    set (stj := fun c' : comp => run (firstn (k + j c') hist) init c').
+    assert (LB : forall d, ceq d (load_snapshot (build_snapshot_racy S M capply csnap cinit hist k j) init d) (stj d)).
+    { intros d. change (build_snapshot_racy S M capply csnap cinit hist k j) with (build_snapshot stj). apply load_build. }
+    destruct (length hist =? 0) eqn:E0.
+    - apply Nat.eqb_eq in E0. destruct hist; [| discriminate].
+      eapply ceq_trans; [apply LB |]. unfold stj. rewrite firstn_nil. apply ceq_refl.
+    - assert (E : firstn (length hist - k) (skipn k hist) = skipn k hist).
+      { apply firstn_all2. rewrite skipn_length. lia. }
+      rewrite E. eapply ceq_trans; [apply run_cong; exact LB |].
+      rewrite !run_proj. unfold stj. rewrite run_proj.
+      (* hist = firstn k ++ firstn j (skipn k) ++ skipn (k + j) *)
+      assert (H1 : firstn (k + j c) hist = firstn k hist ++ firstn (j c) (skipn k hist)).
+      { rewrite <- (firstn_skipn k hist) at 1. rewrite firstn_app, firstn_firstn.
+        replace (Nat.min (k + j c) k) with k by lia.
+        destruct (Nat.le_gt_cases k (length hist)) as [L | L].
+        - rewrite firstn_length_le by assumption. now replace (k + j c - k) with (j c) by lia.
+        - rewrite (skipn_all2 hist) by lia. rewrite !firstn_nil. reflexivity. }
+      assert (H2 : skipn k hist = firstn (j c) (skipn k hist) ++ skipn (j c) (skipn k hist))
+        by (symmetry; apply firstn_skipn).
+      assert (H3 : hist = firstn k hist ++ firstn (j c) (skipn k hist) ++ skipn (j c) (skipn k hist)).
+      { rewrite <- H2. symmetry. apply firstn_skipn. }
+      remember (firstn (j c) (skipn k hist)) as B eqn:EB.
+      remember (skipn (j c) (skipn k hist)) as R eqn:ER.
+      remember (firstn k hist) as A eqn:EA.
+      clear EA EB ER.
+      rewrite H1, H2. rewrite H3 at 1.
+      rewrite !msgs_app, !fold_left_app.
+      apply fold_cong. apply ID.
   Qed.
 
   (** ** file level *)
